@@ -1179,6 +1179,10 @@ def _index_forms(n):
                   ('arr', [n - 1, 0]), ('arr', [0, n - 1])]
     if n >= 3:
         forms += [('slice', [1, -1, None]), ('arr', [2, 0, 1][:n])]
+    if n >= 2:  # (appended last: positions of the forms above are used by the two-axis instances)
+        forms += [('arr', [-1, 0]), ('arr', [0, -1])]
+    if n >= 3:
+        forms += [('arr', [-2, 0, -1])]
     return forms
 
 
@@ -1287,6 +1291,11 @@ class _SetItem(Base):
                     for k in range(a.rank):
                         if a.legs[k].n >= 2:
                             yield ('setitem', i, 'slice', [j, k])
+                            # index arrays (unsorted / counted from the end): a[idx] = b[idx] and a[idx] = ndarray
+                            n = a.legs[k].n
+                            for arr in ([n - 1, 0], [-1, 0]) + (([2, 0, 1], [-2, 0, -1]) if n >= 3 else ()):
+                                yield ('setitem', i, 'arr', [j, k, list(arr), False])
+                            yield ('setitem', i, 'arr', [j, k, [n - 1, 0] if n < 3 else [1, 2, 0], True])
                             break
 
     def run(self, heap, p):
@@ -1295,6 +1304,12 @@ class _SetItem(Base):
             a[tuple(p[3])] = 42
         elif p[2] == 'full':
             a[(slice(None),) * a.rank] = heap[p[3]].arr
+        elif p[2] == 'arr':
+            j, k, arr, flat = p[3]
+            idx = [slice(None)] * a.rank
+            idx[k] = np.array(arr, dtype=np.intp)
+            src = heap[j].arr[tuple(idx)]
+            a[tuple(idx)] = src.to_ndarray() if flat else src
         else:
             j, k = p[3]
             idx = [slice(None)] * a.rank
@@ -1308,6 +1323,11 @@ class _SetItem(Base):
             a.dense[tuple(p[3])] = 42
         elif p[2] == 'full':
             a.dense[...] = shs[p[3]].dense
+        elif p[2] == 'arr':
+            j, k, arr, _flat = p[3]
+            idx = [slice(None)] * a.rank
+            idx[k] = np.array(arr, dtype=np.intp)
+            a.dense[tuple(idx)] = shs[j].dense[tuple(idx)]
         else:
             j, k = p[3]
             idx = [slice(None)] * a.rank
